@@ -7,6 +7,7 @@
 (*                                  reported (unknown type: only the caller is told) |    *)
 (*                                  fatal (the handler failed)                            *)
 (*   fire(b, store, live)           a timer of block b expired and was handled            *)
+(*   abort(store)                   the simulation was asked to stop                       *)
 (*   stop(kind, store, ts, live)    kind: regular | failed_start                          *)
 (*   restart(src, nowr, exps, restored, outs, entry, fresh, stale_removed, reserved_kept)  *)
 (*                                  the application restarted from the storage as it was  *)
@@ -15,7 +16,7 @@ EXTENDS TraceLib
 Blocks == {}
 Sync == {}
 PersistentAtStart == {}
-DisableOnError == TRUE
+DisableOnError == "always"
 VARIABLES phase, live, store, ts, pers, startOk, now, failed, hist, tid, l
 P == INSTANCE Persist
 vars == <<phase, live, store, ts, pers, startOk, now, failed, hist>>
@@ -48,11 +49,14 @@ EventLine(e) ==
     \/ /\ e.outcome = "reported" /\ phase = "running"            \* nothing happened, nothing is written
        /\ e.store = store /\ e.live = live
        /\ hist' = Append(hist, Rec(e.store, ts)) /\ UNCHANGED <<phase, live, store, ts, pers, startOk, now, failed>>
-    \/ /\ e.outcome = "fatal" /\ phase = "running" /\ phase' = "failing"
+    \/ /\ e.outcome = "fatal" /\ phase \in {"running", "failing"} /\ phase' = "failing"
        /\ e.store = store                                        \* no save after a handler error
        /\ pers' = pers \ {e.b} /\ failed' = failed \cup {e.b}
        /\ live' = e.live /\ hist' = Append(hist, Rec(e.store, ts))
        /\ UNCHANGED <<store, ts, startOk, now>>
+(* the simulation was asked to stop (the clean-up has not run yet) *)
+AbortLine(e) == /\ phase = "running" /\ phase' = "failing" /\ e.store = store
+                /\ hist' = Append(hist, Rec(e.store, ts)) /\ UNCHANGED <<live, store, ts, pers, startOk, now, failed>>
 StopLine(e) ==
     /\ phase' = "stopped"
     /\ IF e.kind = "failed_start"
@@ -80,6 +84,7 @@ Step == /\ l <= Len(Ev(tid))
              \/ e.ev = "init" /\ InitLine(e)
              \/ e.ev = "event" /\ EventLine(e)
              \/ e.ev = "fire" /\ Handled(e)
+             \/ e.ev = "abort" /\ AbortLine(e)
              \/ e.ev = "stop" /\ StopLine(e)
              \/ e.ev = "restart" /\ RestartLine(e)
         /\ l' = l + 1 /\ UNCHANGED tid
